@@ -310,7 +310,7 @@ func (r *encRun) jsonMembers(keys []string, vals []*encJV, path []int) []map[str
 				m["rep"] = rep
 			}
 		}
-		if isGroup && len(vs) == 0 {
+		if isGroup { // an object where a group is possible: describe its members too, the specification picks
 			m["rep"] = "object"
 			m["sub"] = r.jsonMembers(vals[i].keys, vals[i].vals, p)
 		}
